@@ -86,6 +86,7 @@ class World:
             ulist.append(obj)
         self.user_ids = {id(o): k for k, o in self.users.items()}
         self.ctl.short_reads = int(c.get("short_reads", 0))
+        self.ctl.close_returns = bool(c.get("close_returns"))
         kw = dict(
             block_size=c["block"],
             socket_timeout=(c["sock"] / 1000) if c["sock"] else None,
